@@ -96,6 +96,12 @@ func init() {
 		case "read-dataerr": // ... or the last bytes together with io.EOF
 			db, err = signature.ReadSignatureDatabase(iotest.DataErrReader(bytes.NewReader(in)))
 		case "unmarshal":
+			// the receiver is not empty: Unmarshal replaces what it held
+			if len(in)%2 == 1 {
+				l := signature.NewSignatureList(signature.CERT_SHA256_GUID)
+				l.AppendBytes(util.EFIGUID{Data1: 9}, bytes.Repeat([]byte{9}, 32))
+				db.AppendList(l)
+			}
 			err = db.Unmarshal(bytes.NewBuffer(in))
 		case "readlist": // ReadSignatureList repeatedly, the way callers of the list API do
 			r := bytes.NewReader(in)
@@ -445,6 +451,18 @@ func runC08(c *Ctx) {
 		case 7:
 			class = "byte-flip-header"
 			m[p+16+rng.Intn(12)] ^= 1 << uint(rng.Intn(8))
+		}
+		if i%40 == 3 {
+			// zero padding behind the lists (a whole zeroed header, then maybe another list or garbage)
+			class = "zero-header-then-more"
+			m = append(append([]byte{}, s...), make([]byte, 28)...)
+			switch rng.Intn(3) {
+			case 0:
+				nx, _ := genWfList(rng, 40)
+				m = append(m, nx...)
+			case 1:
+				m = append(m, randBytes(rng, 1+rng.Intn(30))...)
+			}
 		}
 		c.evalDecode("c08_decode", class, m, decodeEntries(rng), match(class))
 	}
